@@ -559,7 +559,7 @@ class LosSpec(unit.UnitSpec):
 
 
 LOS_THEOREMS = ["Mmtk.LOS.los_one_set", "Mmtk.LOS.los_one_set_structured", "Mmtk.LOS.los_bits", "Mmtk.LOS.los_bits_mutator",
-                "Mmtk.LOS.los_sweep_exact", "Mmtk.LOS.los_nursery_gc_keeps_mature", "Mmtk.LOS.los_swept_once_ever",
+                "Mmtk.LOS.los_sweep_exact", "Mmtk.LOS.los_nursery_gc_keeps_mature", "Mmtk.LOS.los_swept_once_ever", "Mmtk.LOS.los_is_live_exact", "Mmtk.LOS.los_is_live_iff_not_swept",
                 "Mmtk.LOS.los_protocol_never_panics", "Mmtk.LOS.inv_step", "Mmtk.LOS.gc_run", "Mmtk.LOS.trace_young",
                 "Mmtk.LOS.trace_old", "Mmtk.LOS.trace_kept", "Mmtk.LOS.release_spec"]
 
